@@ -124,6 +124,11 @@ def build_coq(log=None):
             gen_c17.main()
         except Exception as e:  # noqa: BLE001
             sys.stderr.write("gen_c17 failed: %s\n" % e)
+        try:
+            import gen_layout
+            gen_layout.main()
+        except Exception as e:  # noqa: BLE001
+            sys.stderr.write("gen_layout failed: %s\n" % e)
         if newer([os.path.join(COQ, "_CoqProject")], os.path.join(COQ, "Makefile")):
             run(["coq_makefile", "-f", "_CoqProject", "-o", "Makefile"], cwd=COQ)
         if not os.path.exists(os.path.join(COQ, "Makefile")):
@@ -154,6 +159,15 @@ def build_model():
         os.replace(exe + ".tmp", exe)
 
 
+def point_harness_at_repo():
+    """the harness module replaces the library modules by the tree under test (REPO; /repo unless VERIF_REPO is set)"""
+    gm = os.path.join(VERIF, "harness", "go.mod")
+    txt = open(gm).read()
+    new = re.sub(r"(replace github.com/foxglove/mcap/go/(mcap|ros) => )\S+", lambda m: m.group(1) + os.path.join(REPO, "go", m.group(2)), txt)
+    if new != txt:
+        open(gm, "w").write(new)
+
+
 def build_harness():
     """(Re)build the Go harness against /repo's current working tree with -tags verif."""
     with BuildLock():
@@ -164,6 +178,7 @@ def build_harness():
             if os.path.exists(p):
                 sums.update(open(p).read().splitlines())
         open(os.path.join(h, "go.sum"), "w").write("\n".join(sorted(sums)) + "\n")
+        point_harness_at_repo()
         p = run(["go", "build", "-tags", "verif", "-o", os.path.join(BUILD, "impl"), "."], cwd=h, env=GOENV, check=False)
         if p.returncode != 0:
             return False, p.stdout.decode(errors="replace")
@@ -174,6 +189,7 @@ def build_harness_race():
     """The same harness built with the race detector (build/impl_race); the Go build cache makes this cheap after the first time."""
     with BuildLock():
         h = os.path.join(VERIF, "harness")
+        point_harness_at_repo()
         p = run(["go", "build", "-race", "-tags", "verif", "-o", os.path.join(BUILD, "impl_race"), "."], cwd=h, env=GOENV, check=False)
         if p.returncode != 0:
             return False, p.stdout.decode(errors="replace")
